@@ -153,12 +153,23 @@ var (
 // alone: the result of every operation run by itself on a fresh schema.
 func c11AloneResults() []string {
 	c11AloneOnce.Do(func() {
+		schema := c11Load()
 		for _, op := range c11Ops {
-			c11Alone = append(c11Alone, op.Run(c11Load()))
+			// the very first run of every operation in this process: lazily filled package-level
+			// state (caches, memo tables) shows here and nowhere later
+			before := globalsSnapshot()
+			c11Alone = append(c11Alone, op.Run(schema))
+			if d := globalsDiff(before, globalsSnapshot()); d != "" {
+				c11FirstRunDrift = append(c11FirstRunDrift, op.Name+": "+d)
+			}
 		}
 	})
 	return c11Alone
 }
+
+// c11FirstRunDrift: package-level variables of the library that changed during the first run
+// of an operation in this process (operation: variables).
+var c11FirstRunDrift []string
 
 // ---- snapshot and owned memory ---------------------------------------------------------------
 
@@ -508,6 +519,9 @@ func c11History(c *explore.Ctx, s *explore.SubStats, ops []int, states map[strin
 	mon := &c11Monitor{ow: ow}
 	mon.install()
 	defer c11Uninstall()
+	for _, d := range c11FirstRunDrift {
+		bad("drift/global first-run "+d, "the first run of the operation in this process changed package-level variable(s) of the library ("+d+"): state shared by every goroutine and every schema of the process", "", "")
+	}
 	glob0 := globalsSnapshot()
 	for i, o := range ops {
 		var res string
